@@ -32,6 +32,8 @@ func init() {
 			{ID: "C16.R11", Text: "scraping neither blocks: the stream getters behind the collector and the state endpoints only read fields — no lock, channel operation, wait or sleep", Run: gettersDoNotBlock},
 			{ID: "C16.R12", Text: "the state endpoints' IsOpen test tells the truth: the session flags: Close records its closeWithCancel argument (before closing streams) in the flag the end listener reads; stops the mitigation ⇔ ¬Disabled and the schedule ⇔ checkpoint≠nil; hands the finish token ⇔ ¬finishedWithEndEvent; open←true ends Open and open←false is stored by Close; Stream.Save is Checkpoint.Save; Open starts the schedule, whose loop saves under Type==auto", Run: sessionFlags},
 			{ID: "C16.R13", Text: "lag is computed against the vBucket's true high sequence number (same rule as C15.R16)", Run: seqnoMerge},
+			{ID: "C16.R14", Text: "each value appears under its own name: the constructor gives the descriptor field X the metric whose name spells X (words of the BuildFQName constants, generic suffixes current/total/ms aside; no name given twice) — the other half of the field ↔ value table of C16.R1", Run: descriptorNames},
+			{ID: "C16.R15", Text: "the counters of a vBucket survive a reopen: the reopened stream keeps the session's observer, whose switches only Stream.Close throws (same rule as C12.R6)", Run: switchOwner},
 			{ID: "C16.R5", Text: "active-stream count: set at open, decremented once per final end only (same rules as C12.R1, C12.R2)", Run: func(c *Ctx, id string) { c12r1(c, id); c12r2counter(c, id) }},
 		},
 	})
